@@ -4,6 +4,7 @@ CONSTANTS
   Rounds = 4
   MaxEdits = 3
   Twin = FALSE
+  Modes = {"inc", "incskip", "force"}
   Emit = TRUE
 INVARIANT IncEqualsFull
 CHECK_DEADLOCK FALSE
